@@ -396,6 +396,13 @@ func (e *Engine) decide(st *State, c *Term) bool {
 		}
 	}
 	e.nDecide++
+	// a worker whose solver keeps answering "unknown" (queries at the per-query
+	// limit) would explore both sides of every such branch: after 30 unknown
+	// verdicts the remaining paths of this worker end as unsupported
+	// (inconclusive) instead of running for hours
+	if e.sol != nil && e.sol.nunk > 30 {
+		abort("unsupported", "more than 30 solver queries of this worker came back unknown (time limit): exploration abandoned")
+	}
 	ft, ff := true, true
 	var mT, mF map[*Term]uint64
 	domT, domF, exact := e.domainSides(st, c)
